@@ -26,6 +26,8 @@ DelivTag(sub) == IF sub.inc.nil THEN "C04:" ELSE "C08:"
 
 CollWriteFails(t, r) ==
   If(t.panic = "", "C01:panic")
+  \* the option list is the caller's: a call does not write into it (a sibling list sharing its array would change)
+  \cup If(~t.optsTouched, "C01:caller-option-list-written")
   \cup If(t.err = r.err, "C01:err")
   \cup If(t.ret = r.ret, "C01:ret")
   \cup If(t.post = r.post, IF r.err = "OK" THEN "C01:post" ELSE "C01:failed-call-changed-store")
@@ -86,6 +88,7 @@ ValFails(t) ==
              r == IF r0.err = "Unsettled" THEN [r0 EXCEPT !.err = "InvalidArgument"] ELSE r0 IN
          IF r0.err = "Unsettled" /\ t.err # "InvalidArgument" THEN {} ELSE
          If(t.panic = "", "C01:panic")
+         \cup If(~t.optsTouched, "C01:caller-option-list-written")
          \cup If(t.err = r.err, "C01:err")
          \cup If(t.ret = r.ret, "C01:ret")
          \cup If(t.vpost = r.post, IF r.err = "OK" THEN "C01:post" ELSE "C01:failed-call-changed-store")
